@@ -453,7 +453,9 @@ impl W7 {
         // ---- oracle
         let foreign: Vec<Data> = sched.iter().flatten().cloned().collect();
         let tx_keys: Vec<String> = queue.iter().flat_map(|q| if let Q::Data(d) = q { d.keys() } else { vec![] }).chain(watched.iter().map(|w| w.0.clone())).collect();
-        let disjoint = foreign.iter().all(|f| f.keys().iter().all(|k| !tx_keys.contains(k)));
+        // m7_exec_serializable: a foreign command that only READS (whatever keys), or that names keys the
+        // transaction neither queues nor watches, cannot change the transaction's outcome
+        let disjoint = foreign.iter().all(|f| f.cmd.is_read_only() || f.keys().iter().all(|k| !tx_keys.contains(k)));
         if flagged {
             if shown != "-execabort" {
                 out.violation("C05:m7:execabort:missing", &format!("a queue-time error was answered inside MULTI, EXEC answered {}", shown), self.replay());
@@ -517,7 +519,7 @@ impl W7 {
             let sig = if concurrent { "C05:m7:exec:not-serializable-on-disjoint-keys" } else { "C05:m7:exec:result-differs-from-sequential" };
             out.violation(sig, &format!("EXEC answered {} but the queued commands executed consecutively outside MULTI answer {}", shown, want), self.replay());
         }
-        out.count(if concurrent { "m7:exec:concurrent:disjoint-keys" } else { "m7:exec:sequential" });
+        out.count(if concurrent { "m7:exec:concurrent:readers-or-disjoint-keys" } else { "m7:exec:sequential" });
         out.count(&format!("m7:exec:queue-len:{}", queue.len().min(8)));
         let sig = if concurrent { "C05:m7:exec:not-serializable-on-disjoint-keys" } else { "C05:m7:exec:store-differs-from-sequential" };
         self.check_store(out, "EXEC", sig).await;
